@@ -140,9 +140,26 @@ func runC06(c *Ctx) Result {
 					ref = ib.Bytes()
 				}
 			default:
-				name = "Marshal(ConfigStd)"
-				out, err = sonic.ConfigStd.Marshal(v)
 				ref, rerr = c06Ref(v, encoder.SortMapKeys|encoder.EscapeHTML|encoder.CompactMarshaler|encoder.ValidateString)
+				switch g.d(3) {
+				case 0:
+					name = "Marshal(ConfigStd)"
+					out, err = sonic.ConfigStd.Marshal(v)
+				case 1:
+					// the returned string is the caller's: watched through its bytes
+					name = "MarshalToString(ConfigStd)"
+					var s string
+					s, err = sonic.ConfigStd.MarshalToString(v)
+					out = unsafeBytes(s)
+				default:
+					name = "MarshalIndent(ConfigStd)"
+					out, err = sonic.ConfigStd.MarshalIndent(v, ">", " ")
+					if rerr == nil {
+						var ib bytes.Buffer
+						json.Indent(&ib, ref, ">", " ")
+						ref = ib.Bytes()
+					}
+				}
 			}
 			hist = append(hist, name)
 			if (err != nil) != (rerr != nil) {
